@@ -206,3 +206,29 @@ Proof. repeat split; vm_compute; reflexivity. Qed.
 Theorem rules_are_expasy_reference : MoPep.Gen.Expasy.site_rules = MoPep.Model.ExpasyRef.reference_rules.
 Proof. exact MoPep.Proofs.ExpasyProofs.rules_match_reference_proof. Qed.
 Print Assumptions rules_are_expasy_reference.
+
+(* ---- code-level tie (docs/py2coq.md): the BODIES of VariantPeptideTable.is_valid and VariantPeptidePool.add_peptide
+        (mass / length / pool chain with its ValueError path, skip_checking, accept-and-merge), translated from /repo's
+        current source by harness/translate/py2coq.py into coq/Gen/Py_VariantPeptideTable.v / Py_VariantPeptidePool.v
+        on every run, are extensionally equal to PepTable.is_valid / PepTable.vpool_add.  Stronger than
+        table_filter_is_model (a mini-language of recognised `if ..: return False` shapes): it is a translation of
+        the statements, and it covers add_peptide's acceptance and return value as well. ---- *)
+From MoPep Require Gen.Py_VariantPeptideTable Gen.Py_VariantPeptidePool.
+From MoPep Require Import Proofs.Py2CoqPepTableProofs.
+
+Theorem code_pep_filters_translated :
+  Py_VariantPeptideTable.py_table_is_valid_untranslated = false /\
+  Py_VariantPeptidePool.py_pool_add_peptide_untranslated = false.
+Proof. vm_compute. split; reflexivity. Qed.
+Print Assumptions code_pep_filters_translated.
+
+Theorem code_table_is_valid_is_model : forall wt water pool lim p,
+  Py_VariantPeptideTable.py_table_is_valid wt water pool lim p = is_valid wt water pool lim p.
+Proof. exact code_table_is_valid_is_model_l. Qed.
+Print Assumptions code_table_is_valid_is_model.
+
+Theorem code_pool_add_peptide_is_model : forall wt water pool lim skip vp p label,
+  Py_VariantPeptidePool.py_pool_add_peptide wt water pool lim skip vp p label
+  = vpool_add wt water pool lim skip vp p label.
+Proof. exact code_pool_add_peptide_is_model_l. Qed.
+Print Assumptions code_pool_add_peptide_is_model.
